@@ -36,6 +36,11 @@ def segment_edits(ref, typ, segs, with_last=True, with_dstar=True):
             out.append(("seg", i, segs[i] + "," + rare))     # a valid value that is unlikely to exist in a universe
             out.append(("seg", i, rare + "," + segs[i]))
         out.append(("seg", i, segs[i][:1] + "*," + other))
+        if ref.templates[typ][i][1] is None:
+            # a star glued to literal text in a free-text position; the run it stands for may be empty ('ab*' matches 'ab')
+            out.append(("seg", i, segs[i] + "*"))
+            out.append(("seg", i, "*" + segs[i]))
+            out.append(("seg", i, segs[i][:1] + "*" + segs[i][1:]))
     for a in ref.alias:
         out.append(("seg", n - 1, a))
     if ref.alias:
